@@ -75,10 +75,11 @@ CHECKS = {
 # clauses added in round 3 (after the third round of seeded changes), appended to the level text
 EXTRA = {
  "C05": " Also: the reply is never written under a connection deadline armed before the request was read or the callback ran; the decode loop calls Scan() only while a part is missing.",
- "C06": " Also: the AEAD.Open nonce-length precondition (found and repaired: F10) and the expiry window of the session check (rule instance shared with C07.4).",
+ "C06": " Also: request fields are used only after the JSON decode of the request succeeded; the AEAD.Open nonce-length precondition (found and repaired: F10) and the expiry window of the session check (rule instance shared with C07.4).",
  "C07": " Also: on every path into AEAD.Open the nonce length is known to equal NonceSize() (found and repaired: F10).",
- "C13": " Also: every decoding entry point (Decode, Unmarshal) either delegates to Decode over the whole input or is itself subject to the decode rules; Scan() only while a part is missing.",
- "C14": " Also: nothing in the constructor writes the HMAC key buffer that scryptauth.New retains (retention read from the dependency's SSA).",
+ "C13": " Also: the encoder in its per-part-Write or its one-buffer-one-Write form; request field order on both sides; every decoding entry point (Decode, Unmarshal) either delegates to Decode over the whole input or is itself subject to the decode rules; Scan() only while a part is missing.",
+ "C14": " Also: nothing writes the HMAC key buffer that scryptauth.New retains (retention read from the dependency's SSA; whole-buffer copies followed); scrypt Generate as Gen or as fresh-salt + Hash; the KDF's password operand is unwritten when the KDF runs.",
+ "C01": " Also: the byte copy of the password handed to a KDF is unwritten when the KDF runs.",
  "C15": " Also: a succeeding exit is reached only after the rename and nothing unlinks the final name after it.",
  "C18": " Also: no type below the decoded configuration root re-decodes itself through yaml.Node.Decode (which drops KnownFields) and there is no inline map.",
  "C20": " Also: loop progress — every iteration of the transfer loops that goes round again has transferred a non-zero count (found and repaired: F11, spin on a stale errno after an early close).",
